@@ -15,6 +15,7 @@ import OnlVerif.Net.TBOnKReplay
 import OnlVerif.Net.TwoRateOnKReplay
 import OnlVerif.Net.RROnKReplay
 import OnlVerif.Net.WRROnKReplay
+import OnlVerif.Net.DRROnKReplay
 import OnlVerif.Tcp.SenderOnKReplay
 /-! Line-protocol driver: `driver <mode>` reads cases on stdin and prints the model's observations. -/
 
@@ -39,5 +40,6 @@ def main (args : List String) : IO UInt32 := do
   | ["trk"] => trkLoop stdin; return 0
   | ["rrk"] => rrkLoop stdin; return 0
   | ["wrrk"] => wrrkLoop stdin; return 0
+  | ["drrk"] => drrkLoop stdin; return 0
   | ["sndk"] => sndkLoop stdin; return 0
   | _ => IO.eprintln "usage: driver <kernel|fifo|gensink|timer|rt|…>"; return 2
